@@ -30,7 +30,7 @@ CHECKS = {
     },
     "C17": {
         "level": "exploration",
-        "technique": "cross-build differential: harness built in the five feature configurations; exhaustive element-wise key comparison (zkey vs arkzkey); transcripts of a seeded history compared with the model and byte-for-byte between builds; 5x5 message acceptance matrix",
+        "technique": "cross-build differential: harness built in the five feature configurations; exhaustive element-wise key comparison (zkey vs arkzkey); transcripts of a seeded history compared with the model and byte-for-byte between builds; 5x5 message acceptance matrix; verdicts of every build on 22 tampered / truncated / re-rooted variants of each message must be identical across builds",
         "text": "The driver builds the harness against /repo in the configurations pm (default), fullmerkletree, no-default (optimal), arkzkey and stateless (a configuration that does not compile is a violation); in the arkzkey build every component of (ProvingKey, ConstraintMatrices) from the two key files is compared element by element (exhaustive: about 55k elements); every stateful build writes the transcript of a seeded history (root after each operation, get_proof bytes at sampled positions) which must equal the model's and the other builds'; every build emits messages and every build verifies all of them (verify_with_roots with the producer's root, verify, verify_rln_proof on the replayed history).",
         "note": "Trusted: ideal model + reference Poseidon for the transcripts. Histories are sampled; the key comparison is exhaustive.",
     },
